@@ -447,6 +447,14 @@ def evalObject (r : Rec N) (pairs : List (Node N × Node N)) (data : Option (Val
     | some (.arr xs) => some (.arr xs)
     | some v => some (.arr [v])
     | none => some (.arr [])
+  -- With no context value the implementation evaluates the pairs against a one-slot array whose slot holds
+  -- no value (so that object literals still denote themselves); model values cannot express that array, so
+  -- the executable model abstains unless every value is a scalar literal (which does not look at the context)
+  let scalar : Node N → Bool := fun n => match n with
+    | .num _ | .str _ | .bool _ | .null => true
+    | _ => false
+  if data.isNone && !(pairs.all fun kv => scalar kv.2) then
+    throw (.unsupported "object constructor or grouping without a context value")
   let groups ← groupPairsLoop r env items 0 pairs []
   let nItems := items.length
   let rec build : List KeyIdx → List (String × Val N) → EvalM N (List (String × Val N))
